@@ -29,6 +29,7 @@ import (
 
 	"github.com/arm-doe/sts"
 	stslog "github.com/arm-doe/sts/log"
+	"github.com/arm-doe/sts/zzverif/vfs"
 )
 
 type zzViolation struct {
@@ -84,11 +85,34 @@ func zzSnapshot(root string) map[string]zzEntry {
 // zzStable waits until two snapshots taken 25 ms apart agree (the receiver
 // validates, logs and moves files asynchronously after it has answered)
 func zzStable(root string) map[string]zzEntry {
+	// also: nothing may be on its way through the receiver's pipeline (a complete body
+	// awaiting validation, or a validated one awaiting its move) - on a loaded machine
+	// those steps can be many snapshot intervals apart.  Files that stay in such a
+	// state (held for a predecessor that never comes) stop counting after a while.
+	pending := func(m map[string]zzEntry) string {
+		var ks []string
+		for k := range m {
+			if strings.HasSuffix(k, ".full") || strings.HasSuffix(k, ".wait") || strings.HasSuffix(k, ".lck") {
+				ks = append(ks, k)
+			}
+		}
+		sort.Strings(ks)
+		return strings.Join(ks, "|")
+	}
 	prev := zzSnapshot(root)
-	for i := 0; i < 80; i++ {
+	lastPending, samePending := "", 0
+	lastCalls := vfs.Calls()
+	for i := 0; i < 600; i++ {
 		time.Sleep(25 * time.Millisecond)
 		cur := zzSnapshot(root)
-		if len(zzDiff(prev, cur)) == 0 {
+		p := pending(cur)
+		calls := vfs.Calls() // instrumented file-system calls of the receiver so far
+		if p == lastPending && calls == lastCalls {
+			samePending++
+		} else {
+			lastPending, lastCalls, samePending = p, calls, 0
+		}
+		if len(zzDiff(prev, cur)) == 0 && (p == "" || samePending >= 6) {
 			return cur
 		}
 		prev = cur
